@@ -422,15 +422,29 @@ class Ctx:
         ctx = self
         ask0, tell0, rem0 = l.ask, l.tell, l.remove_unfinished
 
+        # only calls made BY THE RUNNER are recorded: a learner may call its own tell/ask
+        # re-entrantly (IntegratorLearner.add_ival re-tells known points through self.tell)
+        depth = [0]
+
         def ask(n, *a, **k):
-            pts, imps = ask0(n, *a, **k)
-            ctx.act(("ask", n, list(pts)))
-            ctx.ask_answers.append([ctx.P(p) for p in pts])
+            depth[0] += 1
+            try:
+                pts, imps = ask0(n, *a, **k)
+            finally:
+                depth[0] -= 1
+            if depth[0] == 0:
+                ctx.act(("ask", n, list(pts)))
+                ctx.ask_answers.append([ctx.P(p) for p in pts])
             return pts, imps
 
         def tell(x, y):
-            ctx.act(("tell", x, y))
-            return tell0(x, y)
+            if depth[0] == 0:
+                ctx.act(("tell", x, y))
+            depth[0] += 1
+            try:
+                return tell0(x, y)
+            finally:
+                depth[0] -= 1
 
         def remove_unfinished():
             if not ctx.removed:
